@@ -24,6 +24,8 @@ def sha(b):
 def file_state(path):
     if not os.path.lexists(path):
         return {"exists": False, "len": -1, "digest": ""}
+    if os.path.islink(path) and not os.path.exists(path):
+        return {"exists": True, "len": -2, "digest": "dangling link to " + os.readlink(path)}
     with open(path, "rb") as f:
         d = f.read()
     return {"exists": True, "len": len(d), "digest": sha(d)}
@@ -38,7 +40,16 @@ class RangeHandler(http.server.BaseHTTPRequestHandler):
     def log_message(self, *a):
         pass
 
+    races = {}
+
     def do_GET(self):
+        race = RangeHandler.races.pop(self.path, None)
+        if race:
+            # the other party: creates the output (exclusively, with content of its own) while the command is waiting for its first answer
+            with open(race[0], "xb") as f:
+                f.write(race[1])
+        if self.path.startswith("/race"):
+            self.path = "/" + self.path.split("/", 2)[2]
         body = self.data.get(self.path)
         if body is None:
             self.send_response(404)
@@ -260,6 +271,14 @@ def main():
     RangeHandler.data["/invalid.cba"] = bytes(bad)
     RangeHandler.data["/source2.cba"] = arch2
     RangeHandler.data["/invalid2.cba"] = bytes(bad2)
+    # late = "bad_chunk": valid header, every stored chunk damaged (one byte in every 300 of the chunk data region)
+    ds = int.from_bytes(arch[6:14], "little")
+    hdr_len = 14 + ds + 8 + 64
+    dmg = bytearray(arch)
+    for i in range(hdr_len + 7, len(dmg), 300):
+        dmg[i] ^= 0x5A
+    open(os.path.join(fx, "damaged.cba"), "wb").write(bytes(dmg))
+    RangeHandler.data["/damaged.cba"] = bytes(dmg)
     source1, good_sum1, wrong_sum1 = source, good_sum, wrong_sum
     w = open(a.out, "w")
     nrun = 0
@@ -285,7 +304,16 @@ def main():
         tail = m["out"] == "bd_tail"
         source, good_sum, wrong_sum, sfx = (source2, good_sum2, wrong_sum2, "2") if tail else (source1, good_sum1, wrong_sum1, "")
         # prior content of the output
-        if m["out"] != "absent":
+        late = m.get("late", "none") != "none"
+        if m["out"] == "dangling":
+            os.symlink("elsewhere.bin", out)
+        elif m["out"] != "absent" and late:
+            # nothing but the (damaged) archive may provide the chunks: content unrelated to the source
+            n_ = {"bd_small": len(source) - 1 - rnd.randint(0, 5000), "bd_equal": len(source), "bd_large": len(source) + 1 + rnd.randint(0, 9000)}.get(m["out"], rnd.randint(1, 2 * len(source)))
+            open(out, "wb").write(rnd.randbytes(n_))
+            if m["out"].startswith("bd_"):
+                run_env["BITA_VERIF_BLOCKDEV"] = "1"
+        elif m["out"] != "absent":
             if tail:
                 prior = rnd.randbytes(rnd.choice([3 * 4096, 3 * 4096 + 512, 4 * 4096 - 512, 4 * 4096 - 1]))
             elif m["out"] == "bd_small":
@@ -324,10 +352,17 @@ def main():
             if m["verify_out"]:
                 args.append("--verify-output")
             name = ("invalid%s.cba" if m["arch"] == "invalid" else "source%s.cba") % sfx
-            if m["transport"] == "http":
+            if late:
+                name = "damaged.cba"
+            raced = None
+            if m.get("race", "none") == "appears":
+                raced = rnd.randbytes(rnd.randint(1, 9000))
+                RangeHandler.races["/race%d_%d/%s" % (a.shard, n, name)] = (out, raced)
+                args.append("http://127.0.0.1:%d/race%d_%d/%s" % (port, a.shard, n, name))
+            elif m["transport"] == "http":
                 args.append("http://127.0.0.1:%d/%s" % (port, name))
             else:
-                ap_ = os.path.join(d, name)
+                ap_ = os.path.join(d, "source.cba" if late else name)
                 shutil.copy(os.path.join(fx, name), ap_)
                 roles[ap_] = "archive"
                 args.append(ap_)
@@ -353,6 +388,9 @@ def main():
             open(tmp_path, "wb").write(rnd.randbytes(len(source) * 2 + 50000 if m["stale_tmp"] == "longer" else 11))
         tmp_before = file_state(tmp_path)
         before = file_state(out)
+        if m["cmd"] == "clone" and raced is not None:
+            # the state the other party gives the file (it does not exist yet): what a refused run must leave
+            before = {"exists": True, "len": len(raced), "digest": sha(raced)}
         listing_before = listing()
         st = os.path.join(d, "strace.txt")
         cmd = ["strace", "-f", "-y", "-qq", "-s", "0", "-o", st, "-e",
@@ -372,7 +410,7 @@ def main():
             os.unlink(st)
         after = file_state(out)
         listing_after = listing()
-        outdata = open(out, "rb").read() if after["exists"] else b""
+        outdata = open(out, "rb").read() if after["exists"] and os.path.exists(out) else b""
         evs = [dict(m, ev="scenario", n=n, src_len=len(source), pathform=pathform)]
         evs.append({"ev": "before", "exists": before["exists"], "len": before["len"], "digest": before["digest"], "listing": listing_before})
         evs += project(calls, roles, d)
